@@ -317,6 +317,16 @@ fn sys_p(In(plan): In<CallSpec>, mut ps: ParamSet<(Commands, Query<Entity, With<
     Out{ f: F::P, x, count, nested: Vec::new(), changed: None, marked: Some(marked) }
 }
 
+/// The owner of a callback may initialise it (any number of times) before handing it to a `_from` entry point.
+fn pre_init<I, O>(world: &mut World, mut cb: CallbackSystem<I, O>, times: usize) -> CallbackSystem<I, O>
+where
+    I: bevy::ecs::system::SystemInput + Send + Sync + 'static,
+    O: Send + Sync + 'static,
+{
+    for _ in 0..times { cb.initialize(world); }
+    cb
+}
+
 fn unit_sys(In(x): In<u32>, mut local: Local<u32>)
 {
     *local += 1;
@@ -502,16 +512,18 @@ fn run_inner(case: &SysCase, out: &mut SysOutcome)
             }
             TopOp::Register(n, f) =>
             {
+                // a callback handed over through a `_from` entry point may have been initialised by its owner before (0-2 times)
+                let pre = (i / 2) % 3;
                 match (f, *n % 2)
                 {
                     (F::A, 0) => register_named_system(&mut world, name_of(sys_a, *n), sys_a),
                     (F::B, 0) => register_named_system(&mut world, name_of(sys_b, *n), sys_b),
                     (F::N, 0) => register_named_system(&mut world, name_of(sys_n, *n), sys_n),
                     (F::P, 0) => register_named_system(&mut world, name_of(sys_p, *n), sys_p),
-                    (F::A, _) => register_named_system_from(&mut world, name_of(sys_a, *n), CallbackSystem::new(sys_a)),
-                    (F::B, _) => register_named_system_from(&mut world, name_of(sys_b, *n), CallbackSystem::new(sys_b)),
-                    (F::N, _) => register_named_system_from(&mut world, name_of(sys_n, *n), CallbackSystem::new(sys_n)),
-                    (F::P, _) => register_named_system_from(&mut world, name_of(sys_p, *n), CallbackSystem::new(sys_p)),
+                    (F::A, _) => { let cb = pre_init(&mut world, CallbackSystem::new(sys_a), pre); register_named_system_from(&mut world, name_of(sys_a, *n), cb) },
+                    (F::B, _) => { let cb = pre_init(&mut world, CallbackSystem::new(sys_b), pre); register_named_system_from(&mut world, name_of(sys_b, *n), cb) },
+                    (F::N, _) => { let cb = pre_init(&mut world, CallbackSystem::new(sys_n), pre); register_named_system_from(&mut world, name_of(sys_n, *n), cb) },
+                    (F::P, _) => { let cb = pre_init(&mut world, CallbackSystem::new(sys_p), pre); register_named_system_from(&mut world, name_of(sys_p, *n), cb) },
                 }
                 // a (re-)registered system starts with fresh state
                 model.counts.insert(Key::Named(*n, *f), 0);
@@ -521,20 +533,21 @@ fn run_inner(case: &SysCase, out: &mut SysOutcome)
             }
             TopOp::Spawn(f) =>
             {
+                let pre = (i / 3) % 3;
                 let id = match (f, i % 3)
                 {
                     (F::A, 0) => spawn_system(&mut world, sys_a),
                     (F::B, 0) => spawn_system(&mut world, sys_b),
                     (F::N, 0) => spawn_system(&mut world, sys_n),
                     (F::P, 0) => spawn_system(&mut world, sys_p),
-                    (F::A, 1) => spawn_system_from(&mut world, CallbackSystem::new(sys_a)),
-                    (F::B, 1) => spawn_system_from(&mut world, CallbackSystem::new(sys_b)),
-                    (F::N, 1) => spawn_system_from(&mut world, CallbackSystem::new(sys_n)),
-                    (F::P, 1) => spawn_system_from(&mut world, CallbackSystem::new(sys_p)),
-                    (F::A, _) => { let id = world.commands().spawn_system_from(CallbackSystem::new(sys_a)); world.flush(); id }
+                    (F::A, 1) => { let cb = pre_init(&mut world, CallbackSystem::new(sys_a), pre); spawn_system_from(&mut world, cb) },
+                    (F::B, 1) => { let cb = pre_init(&mut world, CallbackSystem::new(sys_b), pre); spawn_system_from(&mut world, cb) },
+                    (F::N, 1) => { let cb = pre_init(&mut world, CallbackSystem::new(sys_n), pre); spawn_system_from(&mut world, cb) },
+                    (F::P, 1) => { let cb = pre_init(&mut world, CallbackSystem::new(sys_p), pre); spawn_system_from(&mut world, cb) },
+                    (F::A, _) => { let cb = pre_init(&mut world, CallbackSystem::new(sys_a), pre); let id = world.commands().spawn_system_from(cb); world.flush(); id }
                     (F::B, _) => { let id = world.commands().spawn_system(sys_b); world.flush(); id }
-                    (F::N, _) => { let id = world.commands().spawn_system_from(CallbackSystem::new(sys_n)); world.flush(); id }
-                    (F::P, _) => { let id = world.commands().spawn_system_from(CallbackSystem::new(sys_p)); world.flush(); id }
+                    (F::N, _) => { let cb = pre_init(&mut world, CallbackSystem::new(sys_n), pre); let id = world.commands().spawn_system_from(cb); world.flush(); id }
+                    (F::P, _) => { let cb = pre_init(&mut world, CallbackSystem::new(sys_p), pre); let id = world.commands().spawn_system_from(cb); world.flush(); id }
                 };
                 ST.with(|s| s.borrow_mut().slots.push(Some(id)));
                 model.slots.push((*f, true));
@@ -830,7 +843,12 @@ pub fn decode(bytes: &[u8], max_ops: usize) -> SysCase
     case
 }
 
-pub struct SysEngine;
+/// `prop`: C17 reports everything; as a side engine of C18 only a panic counts (calls on systems that are gone, or that
+/// disappear during the call, must fail or finish cleanly).
+pub struct SysEngine
+{
+    pub prop: &'static str,
+}
 
 impl SysEngine
 {
@@ -838,7 +856,7 @@ impl SysEngine
     {
         let out = run_case(case);
         let mut o = CaseOutcome::default();
-        o.violations = out.violations;
+        o.violations = if self.prop == "C17" { out.violations } else { out.violations.into_iter().filter(|m| m.starts_with("panic: ")).collect() };
         o.nontrivial = out.keys_used >= 2 && out.classes.contains_key("C17:nested_or_command_issued");
         o.classes = out.classes.iter().map(|(k, v)| (k.clone(), *v)).collect();
         o.digest = json!({ "ops": case.ops.len(), "keys": out.keys_used });
@@ -870,7 +888,7 @@ impl Engine for SysEngine
     fn shrink_json(&self, case: &Value) -> Value
     {
         let Ok(mut best) = serde_json::from_value::<SysCase>(case.clone()) else { return case.clone() };
-        let fails = |c: &SysCase| !run_case(c).violations.is_empty();
+        let fails = |c: &SysCase| !self.outcome(c).violations.is_empty();
         loop
         {
             let mut progress = false;
